@@ -34,6 +34,7 @@ PANICS = [
     (r"^std::vec::from_elem$", "vec![x; n]", "capacity overflow"),
     (r"^std::string::String::(insert|insert_str|remove|truncate|split_off|drain|replace_range)$", "String op", "index not on a char boundary / out of range"),
     (r"^core::num::<impl [iu](8|16|32|64|128|size)>::(pow|abs|div_euclid|rem_euclid|isqrt|ilog|ilog2|ilog10|next_power_of_two|strict_|unchecked_|abs_diff|midpoint|next_multiple_of|div_ceil|div_floor)", "integer op", "overflow / zero"),
+    (r"^core::num::<impl [iu](8|16|32|64|128|size)>::(wrapping|overflowing|saturating)_(div|rem|div_euclid|rem_euclid)$", "integer division", "zero divisor (the wrapping/overflowing/saturating forms only tame MIN / -1)"),
     (r"^core::char::(from_digit|methods::<impl char>::(from_digit|to_digit))$", "char digit", "radix > 36"),
     (r"^std::process::(exit|abort)$", "process exit", "always"),
     (r"^std::thread::", "thread", "may panic"),
@@ -60,6 +61,7 @@ SAFE = [
     r"as std::cmp::(PartialEq|Eq|PartialOrd|Ord)(<.*>)?>::(eq|ne|cmp|partial_cmp|lt|le|gt|ge|max|min)$", r"^std::cmp::(PartialEq|PartialOrd|Ord)::(eq|ne|cmp|partial_cmp|lt|le|gt|ge|max|min)$",
     r"^std::cmp::impls::<impl std::cmp::(PartialEq|Ord|PartialOrd)(<.*>)? for .*>::(eq|ne|cmp|partial_cmp|lt|le|gt|ge)$",
     r"^core::str::traits::<impl std::cmp::(PartialEq|Ord|PartialOrd) for str>::",
+    r"^core::(tuple|array|slice)::.*<impl std::cmp::(PartialEq|Eq|PartialOrd|Ord)(<.*>)? for .*>::(eq|ne|cmp|partial_cmp|lt|le|gt|ge)$",
     r"^std::cmp::(min|max|Ordering::.*)$",
     r"as std::convert::(From|Into|AsRef|AsMut)(<.*>)?>::(from|into|as_ref|as_mut)$", r"^std::convert::(Into::into|From::from|AsRef::as_ref|AsMut::as_mut|identity)$", r"^<T as std::convert::Into<U>>::into$",
     r"^<T as std::borrow::ToOwned>::to_owned$", r"^std::borrow::(Borrow::borrow|BorrowMut::borrow_mut|ToOwned::to_owned)$", r"as std::borrow::(Borrow|BorrowMut)(<.*>)?>::",
